@@ -90,14 +90,17 @@ def expected(fs, as_):
     e["algos"] = ",".join(ALGO[int(x)] for x in al) if al else "-"
     # hooks: plain hook = last plain on the command line, else file; per-event hooks accumulate, command line wins per event
     plain = [x for x in a.get("hook", "").split(",") if x and ":" not in x]
+    def hs(v):
+        # per-event scripts: every fifth id stands for a script text that itself contains colons (a URL, host:port, PATH=/a:/b)
+        return ("s%s:p:q" % v) if int(v) % 5 == 0 else ("s" + v)
     e["hook"] = ("s" + plain[-1]) if plain else (("s" + f["hook"]) if "hook" in f else "-")
     hm = {}
     for kv in [x for x in f.get("hooks", "").split(",") if x]:
         k, v = kv.split(":")
-        hm["e" + k] = "s" + v
+        hm["e" + k] = hs(v)
     for kv in [x for x in a.get("hook", "").split(",") if x and ":" in x]:
         k, v = kv.split(":")
-        hm["e" + k] = "s" + v
+        hm["e" + k] = hs(v)
     e["hooks"] = ",".join("%s:%s" % (k, hm[k]) for k in sorted(hm)) if hm else "-"
     return e
 
